@@ -120,7 +120,8 @@ def finalizerGuard (w : World) (r : StepResult) : Bool :=
 def rollbackFirst (w : World) (r : StepResult) : Bool :=
   match w.ro.sub, w.wl with
   | some s, some wl =>
-    if inRollingNow w.ro ∧ wl.consistent ∧ wl.inRollback ∧ wl.canaryRev ≠ s.canaryRev ∧ ¬ (¬ w.ro.hasTraffic ∧ w.ro.rollbackInBatch) then
+    if inRollingNow w.ro ∧ wl.consistent ∧ wl.inRollback ∧ wl.canaryRev ≠ s.canaryRev ∧
+       ¬ (¬ w.ro.hasTraffic ∧ w.ro.realPartition ∧ w.ro.rollbackInBatch) then
       r.w.ro.reason = .cancelling && r.w.br == w.br && r.w.net == w.net
     else true
   | _, _ => true
@@ -165,13 +166,17 @@ def resetRoutesFirst (w : World) (r : StepResult) : Bool :=
     else true
   | _, _ => true
 
-/-- the step the status points at replaces every stable pod (partition-style canary) -/
+/-- the step the status points at replaces every stable pod: a **partition-style** canary rollout
+    (`IsRealPartition`) whose step replicas cover the whole workload.  A canary-style rollout never scales the
+    stable Deployment down during a step, so it has no such step (and must keep the stable Service pinned:
+    `firstStepPinsStable` below). -/
 def fullStep (ro : Rollout) (s : Sub) (wl : WL) : Bool :=
   match ro.steps[(s.curIdx - 1).toNat]? with
-  | some st => ro.style = .canary && stepHasTraffic st && decide (scaledV st.replicas wl.replicas true ≥ wl.replicas)
+  | some st => ro.style = .canary && stepHasTraffic st && decide (scaledV st.replicas wl.replicas true ≥ wl.replicas) &&
+      ro.realPartition
   | none => false
 
-/-- **C04 (stable half)** — a canary step that replaces every stable pod leaves `StepInit` towards the upgrade
+/-- **C04 (stable half)** — a partition-style canary step that replaces every stable pod leaves `StepInit` towards the upgrade
     (the batch is handed to the BatchRelease) only with the stable Service un-pinned: no request routed through
     the stable Service may end at a selector that matches no pod. -/
 def fullStepUnpinsFirst (w : World) (r : StepResult) : Bool :=
@@ -196,5 +201,47 @@ def stepOracles (w : World) (r : StepResult) : List (String × Bool) :=
    ("C04.full_step_unpins_first", fullStepUnpinsFirst w r),
    ("C02.no_self_jump", noSelfJump w r),
    ("C10.reset_routes_first", resetRoutesFirst w r)]
+
+end RV.Oracle.RolloutSM
+
+/-! ### canary-style Deployment rollouts (`IsRealPartition = false`) -/
+namespace RV.Oracle.RolloutSM
+open RV.Arith RV.Traffic RV.RolloutSM
+
+/-- the status points at the first step, which carries traffic, of a canary-style rollout that generates
+    its canary Service -/
+def canaryStyleFirstStep (ro : Rollout) (s : Sub) : Bool :=
+  match ro.steps[(s.curIdx - 1).toNat]? with
+  | some st => ro.style = .canary && !ro.realPartition && !ro.disableGen && stepHasTraffic st && decide (s.curIdx = 1)
+  | none => false
+
+/-- **C03.iv** — a canary-style rollout with traffic leaves `StepInit` of its first step towards the upgrade (the
+    batch is handed to the BatchRelease: before that no canary pod can exist) only with the stable Service
+    existing and pinned to the stable revision — whatever the step's replicas, 100 % included: the canary
+    Deployment's pods carry the Service's labels too, and an un-pinned stable Service would send them traffic as
+    soon as they are ready, before `StepTrafficRouting` decides their share.
+    (Not demanded with `disableGenerateCanaryService`, where the Services are never re-selected.) -/
+def firstStepPinsStable (w : World) (r : StepResult) : Bool :=
+  match w.ro.sub, r.w.ro.sub, w.wl with
+  | some s, some s', some wl =>
+    if inRollingNow w.ro ∧ r.w.ro.reason = .inRolling ∧ w.ro.hasTraffic ∧ wl.consistent ∧
+       s.state = .init ∧ (s'.state = .upgrade ∨ s'.state = .trafficRouting ∨ s'.state = .metricsAnalysis) ∧
+       s'.curIdx = s.curIdx ∧ canaryStyleFirstStep w.ro s then
+      r.w.net.stableExists && r.w.net.stableSel.getD "" == s.stableRev
+    else true
+  | _, _, _ => true
+
+/-- the antecedent of `firstStepPinsStable` (for the coverage statistics only) -/
+def firstStepLeft (w : World) (r : StepResult) : Bool :=
+  match w.ro.sub, r.w.ro.sub, w.wl with
+  | some s, some s', some wl =>
+    inRollingNow w.ro && r.w.ro.reason = .inRolling && w.ro.hasTraffic && wl.consistent &&
+    s.state = .init && (s'.state = .upgrade || s'.state = .trafficRouting || s'.state = .metricsAnalysis) &&
+    decide (s'.curIdx = s.curIdx) && canaryStyleFirstStep w.ro s
+  | _, _, _ => false
+
+/-- the oracles added with the canary-style worlds (evaluated next to `stepOracles`) -/
+def canaryStyleOracles (w : World) (r : StepResult) : List (String × Bool) :=
+  [("C03.first_step_pins_stable", firstStepPinsStable w r)]
 
 end RV.Oracle.RolloutSM
